@@ -72,7 +72,14 @@ Record G := mkG {
   g_buf   : list (Z * Z);     (* m_Buffer as a FIFO of (object, epoch), oldest first *)
   g_bcap  : nat;              (* number of entries the buffer can hold *)
   g_cap   : Z;                (* m_nCapacity *)
-  g_cnt   : bool              (* the buffer counts its items (size() is exact) / size() is always 0 *)
+  g_cnt   : bool;             (* the buffer counts its items (size() is exact) / size() is always 0 *)
+  (* signal_buffered (LV.Model.RcuSignal) *)
+  g_mb    : nat -> bool;      (* m_bNeedMemBar of a record *)
+  (* general_threaded (LV.Model.RcuThreaded): dispose_thread's mailbox *)
+  g_task  : option Z;         (* m_pBuffer != nullptr, with m_nCurEpoch = the epoch handed over *)
+  g_ready : bool;             (* m_bReady *)
+  g_quit  : bool;             (* m_bQuit *)
+  g_ndone : nat               (* general_threaded model: number of client threads that have terminated (what join observes) *)
 }.
 
 Inductive val := VZ (z : Z) | VL (l : list nat) | VP (r : option (Z * Z)).
@@ -87,25 +94,31 @@ Definition bind {A B} := @Conc.bind G V ev A B.
 Definition upd {A} (f : nat -> A) (m : nat) (x : A) : nat -> A := fun k => if Nat.eqb k m then x else f k.
 
 Definition set_ctl (g : G) (x : Z) : G :=
-  mkG x (g_list g) (g_nrec g) (g_tid g) (g_acc g) (g_lock g) (g_proc g) (g_src g) (g_epoch g) (g_buf g) (g_bcap g) (g_cap g) (g_cnt g).
+  mkG x (g_list g) (g_nrec g) (g_tid g) (g_acc g) (g_lock g) (g_proc g) (g_src g) (g_epoch g) (g_buf g) (g_bcap g) (g_cap g) (g_cnt g) (g_mb g) (g_task g) (g_ready g) (g_quit g) (g_ndone g).
 Definition set_list (g : G) (x : list nat) : G :=
-  mkG (g_ctl g) x (g_nrec g) (g_tid g) (g_acc g) (g_lock g) (g_proc g) (g_src g) (g_epoch g) (g_buf g) (g_bcap g) (g_cap g) (g_cnt g).
+  mkG (g_ctl g) x (g_nrec g) (g_tid g) (g_acc g) (g_lock g) (g_proc g) (g_src g) (g_epoch g) (g_buf g) (g_bcap g) (g_cap g) (g_cnt g) (g_mb g) (g_task g) (g_ready g) (g_quit g) (g_ndone g).
 Definition set_nrec (g : G) (x : nat) : G :=
-  mkG (g_ctl g) (g_list g) x (g_tid g) (g_acc g) (g_lock g) (g_proc g) (g_src g) (g_epoch g) (g_buf g) (g_bcap g) (g_cap g) (g_cnt g).
+  mkG (g_ctl g) (g_list g) x (g_tid g) (g_acc g) (g_lock g) (g_proc g) (g_src g) (g_epoch g) (g_buf g) (g_bcap g) (g_cap g) (g_cnt g) (g_mb g) (g_task g) (g_ready g) (g_quit g) (g_ndone g).
 Definition set_tid (g : G) (m : nat) (x : Z) : G :=
-  mkG (g_ctl g) (g_list g) (g_nrec g) (upd (g_tid g) m x) (g_acc g) (g_lock g) (g_proc g) (g_src g) (g_epoch g) (g_buf g) (g_bcap g) (g_cap g) (g_cnt g).
+  mkG (g_ctl g) (g_list g) (g_nrec g) (upd (g_tid g) m x) (g_acc g) (g_lock g) (g_proc g) (g_src g) (g_epoch g) (g_buf g) (g_bcap g) (g_cap g) (g_cnt g) (g_mb g) (g_task g) (g_ready g) (g_quit g) (g_ndone g).
 Definition set_acc (g : G) (m : nat) (x : Z) : G :=
-  mkG (g_ctl g) (g_list g) (g_nrec g) (g_tid g) (upd (g_acc g) m x) (g_lock g) (g_proc g) (g_src g) (g_epoch g) (g_buf g) (g_bcap g) (g_cap g) (g_cnt g).
+  mkG (g_ctl g) (g_list g) (g_nrec g) (g_tid g) (upd (g_acc g) m x) (g_lock g) (g_proc g) (g_src g) (g_epoch g) (g_buf g) (g_bcap g) (g_cap g) (g_cnt g) (g_mb g) (g_task g) (g_ready g) (g_quit g) (g_ndone g).
 Definition set_lock (g : G) (x : bool) : G :=
-  mkG (g_ctl g) (g_list g) (g_nrec g) (g_tid g) (g_acc g) x (g_proc g) (g_src g) (g_epoch g) (g_buf g) (g_bcap g) (g_cap g) (g_cnt g).
+  mkG (g_ctl g) (g_list g) (g_nrec g) (g_tid g) (g_acc g) x (g_proc g) (g_src g) (g_epoch g) (g_buf g) (g_bcap g) (g_cap g) (g_cnt g) (g_mb g) (g_task g) (g_ready g) (g_quit g) (g_ndone g).
 Definition set_proc (g : G) (x : Z) : G :=
-  mkG (g_ctl g) (g_list g) (g_nrec g) (g_tid g) (g_acc g) (g_lock g) x (g_src g) (g_epoch g) (g_buf g) (g_bcap g) (g_cap g) (g_cnt g).
+  mkG (g_ctl g) (g_list g) (g_nrec g) (g_tid g) (g_acc g) (g_lock g) x (g_src g) (g_epoch g) (g_buf g) (g_bcap g) (g_cap g) (g_cnt g) (g_mb g) (g_task g) (g_ready g) (g_quit g) (g_ndone g).
 Definition set_src (g : G) (x : Z) : G :=
-  mkG (g_ctl g) (g_list g) (g_nrec g) (g_tid g) (g_acc g) (g_lock g) (g_proc g) x (g_epoch g) (g_buf g) (g_bcap g) (g_cap g) (g_cnt g).
+  mkG (g_ctl g) (g_list g) (g_nrec g) (g_tid g) (g_acc g) (g_lock g) (g_proc g) x (g_epoch g) (g_buf g) (g_bcap g) (g_cap g) (g_cnt g) (g_mb g) (g_task g) (g_ready g) (g_quit g) (g_ndone g).
 Definition set_epoch (g : G) (x : Z) : G :=
-  mkG (g_ctl g) (g_list g) (g_nrec g) (g_tid g) (g_acc g) (g_lock g) (g_proc g) (g_src g) x (g_buf g) (g_bcap g) (g_cap g) (g_cnt g).
+  mkG (g_ctl g) (g_list g) (g_nrec g) (g_tid g) (g_acc g) (g_lock g) (g_proc g) (g_src g) x (g_buf g) (g_bcap g) (g_cap g) (g_cnt g) (g_mb g) (g_task g) (g_ready g) (g_quit g) (g_ndone g).
+Definition set_mb (g : G) (m : nat) (x : bool) : G :=
+  mkG (g_ctl g) (g_list g) (g_nrec g) (g_tid g) (g_acc g) (g_lock g) (g_proc g) (g_src g) (g_epoch g) (g_buf g) (g_bcap g) (g_cap g) (g_cnt g) (upd (g_mb g) m x) (g_task g) (g_ready g) (g_quit g) (g_ndone g).
+Definition set_mail (g : G) (task : option Z) (ready quit : bool) : G :=
+  mkG (g_ctl g) (g_list g) (g_nrec g) (g_tid g) (g_acc g) (g_lock g) (g_proc g) (g_src g) (g_epoch g) (g_buf g) (g_bcap g) (g_cap g) (g_cnt g) (g_mb g) task ready quit (g_ndone g).
+Definition set_ndone (g : G) (x : nat) : G :=
+  mkG (g_ctl g) (g_list g) (g_nrec g) (g_tid g) (g_acc g) (g_lock g) (g_proc g) (g_src g) (g_epoch g) (g_buf g) (g_bcap g) (g_cap g) (g_cnt g) (g_mb g) (g_task g) (g_ready g) (g_quit g) x.
 Definition set_buf (g : G) (x : list (Z * Z)) : G :=
-  mkG (g_ctl g) (g_list g) (g_nrec g) (g_tid g) (g_acc g) (g_lock g) (g_proc g) (g_src g) (g_epoch g) x (g_bcap g) (g_cap g) (g_cnt g).
+  mkG (g_ctl g) (g_list g) (g_nrec g) (g_tid g) (g_acc g) (g_lock g) (g_proc g) (g_src g) (g_epoch g) x (g_bcap g) (g_cap g) (g_cnt g) (g_mb g) (g_task g) (g_ready g) (g_quit g) (g_ndone g).
 
 (** symbolic addresses *)
 Definition obj_head : list Z := [0].
@@ -358,7 +371,7 @@ Fixpoint run_ops (flips fuel : nat) (t : nat) (s : lst) (os : list op) : prog un
 Definition thread_prog (flips fuel : nat) (t : nat) (os : list op) : Conc.thread G V ev :=
   Act a_begin (fun _ => run_ops flips fuel t (mkL None O) os).
 
-Definition init : G := mkG 1 [] O (fun _ => 0) (fun _ => 0) false 0 0 0 [] O 0 false.
+Definition init : G := mkG 1 [] O (fun _ => 0) (fun _ => 0) false 0 0 0 [] O 0 false (fun _ => false) None false false O.
 
 Fixpoint number {A} (n : nat) (l : list A) : list (nat * A) :=
   match l with [] => [] | x :: r => (n, x) :: number (S n) r end.
